@@ -23,15 +23,19 @@ CONSTANTS
   Root = 0
   RootMax = {rootmax}
   Depth = {depth}
+  Root2 = {root2}
+  Root2Max = {root2max}
   KeyMode = "{mode}"
 INVARIANTS ExactValue ExactTasks
 PROPERTY Terminates
 """
 
 
-def gen_game(rnd, depth=3):
+def gen_game(rnd, depth=5):
     """positions 0..m-1 with 0-2 successors each (the same position may recur at different depths
-    and with either side to move); unfolded from position 0 to `depth` plies"""
+    and with either side to move); unfolded from position 0 to `depth` plies -- two plies plus the
+    search depth beyond the first root, so that the second search (from a grandchild) sees complete
+    subtrees (a node cut off by the unfolding would alias a position that does have moves)"""
     m = rnd.randint(4, 6)
     succ = {}
     for p in range(m):
@@ -51,7 +55,7 @@ def gen_game(rnd, depth=3):
                 ch.append(len(nodes) - 1)
         children[i] = ch
         i += 1
-    if len(nodes) > 26:
+    if len(nodes) > 90:
         return None
     return nodes, children, static
 
@@ -75,7 +79,10 @@ def write_game(idx, rnd, workdir):
     path = os.path.join(tlc.SPEC, name + ".tla")
     with open(path, "w") as f:
         f.write(text)
-    return name, path
+    # the second search of the game (same context): from a grandchild of the first root, either colour
+    grand = [c2 for c in children[0] for c2 in children[c] if children[c2]]
+    root2 = rnd.choice(grand) if grand else 9999
+    return name, path, root2
 
 
 def run_family(n, seed, depth=3):
@@ -84,10 +91,11 @@ def run_family(n, seed, depth=3):
     states = gen = wfail = 0
     fails = {}
     for i in range(n):
-        name, path = write_game(i, rnd, tlc.WORK)
+        name, path, root2 = write_game(i, rnd, tlc.WORK)
+        root2max = rnd.choice(["TRUE", "FALSE"])
         try:
             for mode in ("full", "window", "noside", "nodepth"):
-                cfg = tlc.write_cfg("%s_%s.cfg" % (name, mode), CFG.format(rootmax=rnd.choice(["TRUE", "FALSE"]) if mode == "x" else "TRUE", depth=depth, mode=mode))
+                cfg = tlc.write_cfg("%s_%s.cfg" % (name, mode), CFG.format(rootmax="TRUE", depth=depth, mode=mode, root2=root2, root2max=root2max))
                 r = tlc.run(name, cfg, workers=2, heap="1g", young="200m", timeout=900)
                 os.unlink(cfg)
                 if mode == "full":
